@@ -101,8 +101,10 @@ def case_coap_write(p):
             except Exception as e:  # noqa: BLE001
                 res, exc = {}, e
             notified = set()
+            told = {}
             for ev in notes:
                 notified |= {k[1] for k in ev}
+                told.update({k[1]: v.get("value") for k, v in ev.items()})
             if exc is not None:
                 if all(o == "ok" for o in vec):
                     out.append((f"coap:write-raises-though-nothing-rejected:{type(exc).__name__}", dict(det, err=str(exc)[:200])))
@@ -121,6 +123,8 @@ def case_coap_write(p):
                         out.append(("coap:accepted-write-reported-non-zero", dict(det, key=i, got=repr(r))))
                     if (i in READABLE) != (i in notified):
                         out.append(("coap:listener-notifications-differ-from-accepted-and-readable", dict(det, key=i, notified=sorted(notified))))
+                    elif i in notified and told[i] != VALS[i]:
+                        out.append(("coap:listeners-told-another-value-than-the-one-written", dict(det, key=i, told=repr(told[i]), written=repr(VALS[i]))))
                 else:
                     # reply for this item unusable (wrong tid / control): must be a per-item error, must not be presented as written
                     if r is None or not r.get("status"):
@@ -133,7 +137,42 @@ def case_coap_write(p):
     return out
 
 
-CASES = {"coap_read": case_coap_read, "coap_write": case_coap_write}
+def case_coap_write_race(p):
+    """While a write is on its way the accessory reports another value for the same characteristic (an event), or a read of it completes.
+    Listeners are told what happened, in order: the event's value, then - once the accessory has accepted the write - the value that was WRITTEN."""
+    from vt.env.coaprig import CoapRig
+    from vt.ref import coapacc
+
+    out = []
+    rig = CoapRig(seed=p.get("seed", 0))
+    try:
+        rig.run(rig.pairing.list_accessories_and_characteristics())
+        rig.run(rig.pairing.subscribe([(1, 10), (1, 9)]))
+        notes = []
+        rig.pairing.dispatcher_connect(lambda ev: notes.append(dict(ev)))
+        iid, written, other = p["iid"], p["written"], p["other"]
+        rig.hold = True
+        t = rig.loop.create_task(rig.pairing.put_characteristics([(1, iid, written)]))
+        rig.loop.run_until_idle()
+        if p["between"] == "event":
+            rig.acc.chars[iid].value = other
+            rig.deliver_event([(iid, coapacc.pack_value(rig.acc.chars[iid].format, other))])
+        rig.hold = False
+        while rig.held:
+            rig.held.pop(0)()
+            rig.loop.run_until_idle()
+        if not t.done() or t.exception() is not None:
+            return [("coap:write-fails-though-nothing-rejected-it", {"err": repr(t.exception() if t.done() else "pending")[:160], **p})]
+        vals = [ev[(1, iid)].get("value") for ev in notes if (1, iid) in ev]
+        want = ([other] if p["between"] == "event" else []) + [written]
+        if vals != want:
+            out.append(("coap:listeners-told-another-value-than-the-one-written", {**p, "told": vals, "expected": want}))
+    finally:
+        rig.close()
+    return out
+
+
+CASES = {"coap_read": case_coap_read, "coap_write": case_coap_write, "coap_write_race": case_coap_write_race}
 
 
 def plan(tier):
@@ -150,4 +189,7 @@ def plan(tier):
         alph = [o for o in OUTCOMES if o != "empty"] if len(ids) <= (2 if tier == "quick" else 3) else ["ok", "s6", "s6b", "tid", "ctl"]
         vecs = list(itertools.product(alph, repeat=len(ids)))
         work.append(("coap_write", {"ids": ids, "replies": vecs[:1], "vectors": vecs}))
+    for iid, written, other in ((10, 7, 99), (10, 0, 1), (9, True, False), (9, False, True)):
+        for between in ("event", "nothing"):
+            work.append(("coap_write_race", {"ids": [iid], "replies": [None], "iid": iid, "written": written, "other": other, "between": between}))
     return work
